@@ -19,7 +19,15 @@ class Infra(Exception):
 def load_findings(pid):
     with open(FINDINGS) as fh:
         doc = json.load(fh)
-    return [f for f in doc.get("findings", []) if f["property"] == pid]
+    out = [f for f in doc.get("findings", []) if f["property"] == pid]
+    # findings.d/*.json: same format, staged by the builders of a module until merged into the main file
+    d = os.path.join(VERIF, "findings.d")
+    if os.path.isdir(d):
+        for fn in sorted(os.listdir(d)):
+            if fn.endswith(".json"):
+                with open(os.path.join(d, fn)) as fh:
+                    out += [f for f in json.load(fh).get("findings", []) if f["property"] == pid]
+    return out
 
 
 class Ctx:
